@@ -118,4 +118,15 @@ def run(ctx):
                     ctx.check(good, R, ("Thread", "comm-of-same-tid"), eb.where(bi, si),
                               "Thread.name is read from /proc/<pid>/task/<tid>/comm formatted with the same tid that is stored",
                               "Thread.name is not read from the comm file of the stored tid: %s" % show(name)[:200])
+                    # between the read and the stored name only the trailing newline may be removed
+                    ALLOWED = {"read_to_string", "trim_end", "trim_end_matches", "strip_suffix", "to_string", "to_owned", "into", "from", "as_str",
+                               "deref", "ok", "map", "unwrap_or", "unwrap_or_default", "clone", "borrow", "as_ref"}
+
+                    def contains_read(x):
+                        return any(s_[0] == "call" and s_[1].endswith("fs::read_to_string") for s_ in walk(x))
+                    applied = sorted({s_[1].split("::")[-1] for s_ in walk(name) if s_[0] == "call" and contains_read(s_)})
+                    extra = [f for f in applied if f not in ALLOWED]
+                    ctx.check(not extra and "read_to_string" in applied, R, ("Thread", "name-unaltered"), eb.where(bi, si),
+                              "the stored name is the comm content with only trailing characters removed (%s)" % ", ".join(applied),
+                              "the kernel's thread name is altered before it is stored: %s applied to the comm content (only trailing trimming is expected)" % ", ".join(extra or ["?"]))
         ctx.floor(R, "Thread aggregates in enumerate_threads", n, 1)
